@@ -503,6 +503,16 @@ func mtimeGrid(anchors []instant, allFlags bool, r *rng.R, fs string) []tcase {
 	return out
 }
 
+// zeroDated: the tree holds a template outside skipped directories dated at or before Go's zero time.Time
+func zeroDated(before snap) bool {
+	for k, e := range before {
+		if !e.Dir && strings.HasSuffix(k, ".templ") && inScope(k) && e.Mtime.cmp(mtime{goZeroSec, 0}) <= 0 {
+			return true
+		}
+	}
+	return false
+}
+
 // timeClass: where a modification time sits (evidence histogram)
 func timeClass(m mtime, now mtime) string {
 	switch {
@@ -761,28 +771,26 @@ func checkReq(keep, failed bool, before, after []ent, orc map[string]string) drv
 
 type modelRun struct {
 	wf, failed bool
-	wfShape    bool // wf_tree without its condition on modification times
 	walk       []string
 	final      map[string]ent // kind "A" entries are left out
 	ok         bool
 }
 
 func decRun(r [][]byte) (m modelRun) {
-	if len(r) < 4 {
+	if len(r) < 3 {
 		return
 	}
 	m.wf = string(r[0]) == "1"
 	m.failed = string(r[1]) == "1"
-	m.wfShape = string(r[2]) == "1"
-	n, err := strconv.Atoi(string(r[3]))
-	if err != nil || len(r) < 4+n || (len(r)-4-n)%4 != 0 {
+	n, err := strconv.Atoi(string(r[2]))
+	if err != nil || len(r) < 3+n || (len(r)-3-n)%4 != 0 {
 		return
 	}
 	for i := 0; i < n; i++ {
-		m.walk = append(m.walk, string(r[4+i]))
+		m.walk = append(m.walk, string(r[3+i]))
 	}
 	m.final = map[string]ent{}
-	for i := 4 + n; i+3 < len(r); i += 4 {
+	for i := 3 + n; i+3 < len(r); i += 4 {
 		p := string(r[i])
 		switch string(r[i+1]) {
 		case "D":
@@ -885,8 +893,6 @@ type verdict struct {
 	tie, prop   string // "" = fine; otherwise what went wrong
 	shape       string
 	wf          bool
-	wfShape     bool // well-formed but for the condition on modification times
-	specOK      bool // spec_check on the first run's before/after trees (evaluated on every tree, judged on well-formed ones)
 	rootSkipped bool
 	o           outcome
 	stages      map[string]int
@@ -954,8 +960,6 @@ func evalCases(c *core.Ctx, scratch string, bins [2]string, cases []tcase, par i
 			continue
 		}
 		v.wf = m1.wf
-		v.wfShape = m1.wfShape
-		v.specOK = string(ck[0]) == "1"
 		// (1) model = implementation
 		switch {
 		case o.raceReport != "":
@@ -1148,7 +1152,7 @@ func Run(c *core.Ctx) {
 		"Go harness internal/c15, the Go toolchain and race detector, the scratch file system under /tmp and, for instants it cannot hold (before 1901, after 2446), a second one under /dev/shm when that is a tmpfs")
 	c.Assume = append(c.Assume,
 		"generate oracle = parser.ParseString + generator.Generate(WithFileName(relative path)) + format.Source, a function of (relative path, contents) - checked against `templ generate -f` on the file alone",
-		"wf_tree: unique paths, parents are directories, no directory (nor the root) is called *.go or *.templ, under -lazy a _templ.go newer than its .templ outside skipped directories is up to date, a template outside skipped directories is dated after Go's zero time.Time 0001-01-01T00:00:00Z (no other condition on modification times; without it the statement is false: C15_zero_time_refuted, observed on tmpfs)",
+		"wf_tree: unique paths, parents are directories, no directory (nor the root) is called *.go or *.templ, under -lazy a _templ.go newer than its .templ outside skipped directories is up to date (no condition on modification times)",
 		"-include-version=false, no -include-timestamp, default watch pattern, non-watch mode, nothing else writes to the tree during the run")
 	c.Proofs()
 
@@ -1283,7 +1287,7 @@ func Run(c *core.Ctx) {
 	famCases, famProp, famTie := map[string]int{}, map[string]int{}, map[string]int{}
 	shrunkTie, shrunkProp := false, false
 	nWf, nSkippedRoot := 0, 0
-	nZero, nZeroSpecFalse := 0, 0
+	nZero, nZeroProp := 0, 0
 	for i, v := range vs {
 		tc := cases[i]
 		nInScope := 0
@@ -1313,13 +1317,10 @@ func Run(c *core.Ctx) {
 		if v.wf {
 			nWf++
 		}
-		if !v.wf && v.wfShape && v.tie == "" {
-			// the one condition wf_tree puts on times fails: a template outside skipped directories dated at or before
-			// Go's zero time.  The model (compared above) predicts that the command skips it; the specification is not
-			// judged (C15_zero_time_refuted) but what it says of the command's output is recorded.
+		if zeroDated(v.o.before) {
 			nZero++
-			if !v.specOK {
-				nZeroSpecFalse++
+			if v.prop != "" {
+				nZeroProp++
 			}
 		}
 		if v.rootSkipped {
@@ -1362,6 +1363,21 @@ func Run(c *core.Ctx) {
 					shape = "root-dir-name-skipped"
 				}
 			}
+			if shape == "" && v.o.raceReport == "" && zeroDated(v.o.before) {
+				// narrow shape (defect fixed by 103800e; a failure of this shape is a regression): a template dated at or before
+				// Go's zero time.Time is the cause - the same tree and flags with those files dated a few hours ago satisfy
+				// the specification
+				n := tc
+				n.Ents = append([]ent{}, tc.Ents...)
+				for k, e := range n.Ents {
+					if !e.Dir && e.Mtime.cmp(mtime{goZeroSec, 0}) <= 0 {
+						n.Ents[k].Mtime = ns(base + 100e9)
+					}
+				}
+				if vv := evalCases(c, filepath.Join(scratch, "redated"), bins, []tcase{n}, 1); vv[0].prop == "" && vv[0].tie == "" {
+					shape = "template-mtime-not-after-go-zero-time"
+				}
+			}
 			propOK = false
 			if c.NFails("tree: specification on templ generate's own output") < 40 {
 				c.Fail("property", "tree: specification on templ generate's own output", shape, in, detail)
@@ -1379,7 +1395,7 @@ func Run(c *core.Ctx) {
 	c.Extra["model_differences_by_family"] = famTie
 	c.Extra["well_formed_cases"] = nWf
 	c.Extra["skipped_root_cases"] = nSkippedRoot
-	c.Extra["cases_with_a_template_dated_at_or_before_go_zero_time"] = map[string]int{"cases (model = command on all of them)": nZero, "of which the command's output does not meet the specification (template skipped, exit status 0)": nZeroSpecFalse}
+	c.Extra["cases_with_a_template_dated_at_or_before_go_zero_time"] = map[string]int{"cases (judged like any other)": nZero, "property failures among them": nZeroProp}
 	for i := 0; i < len(cases) && i < 3; i++ {
 		k := 12 + i*37
 		if k < len(cases) {
